@@ -59,9 +59,18 @@ def gen_doc(rng, nested=True):
         if pre.lstrip().startswith('#') or re.match(r'^[A-Za-z0-9][^\n]*:', pre):
             pre = 'Intro. ' + pre
     src = ''
+    d.yaml_tight = False
     if meta:
-        src += ''.join('%s: %s\n' % kv for kv in meta) + '\n'
-    d.meta_end = len(src.encode('utf-8')) - (1 if meta else 0)
+        if rng.random() < 0.15:
+            # a YAML-fenced block; the body may follow the closing fence directly, without a blank line
+            src += '---\n' + ''.join('%s: %s\n' % kv for kv in meta) + '---\n'
+            if rng.random() < 0.5 and pre and not re.match(r'^[A-Za-z0-9][^\n]*:', pre):
+                d.yaml_tight = True
+            else:
+                src += '\n'
+        else:
+            src += ''.join('%s: %s\n' % kv for kv in meta) + '\n'
+    d.meta_end = len(src.encode('utf-8')) - (1 if meta and not d.yaml_tight else 0)
     src += pre
     d.expect = []       # (depth, title, note) in document order
     for s in sections:
